@@ -232,7 +232,7 @@ Lemma split_env_loose_eq n x : valid_ident n = true -> has_nl x = false ->
   split_env_loose (n ++ c_eq :: x) = Some (n, x).
 Proof.
   intros Hn Hx. apply valid_ident_alnum in Hn as [Ha (c & r & -> & _)].
-  unfold split_env_loose. rewrite (span_name_eq _ _ Ha). rewrite N.eqb_refl, Hx. reflexivity.
+  unfold split_env_loose. rewrite (span_name_eq _ _ Ha). rewrite N.eqb_refl. reflexivity.
 Qed.
 
 Lemma split_env_strict_eq n x : valid_ident n = true -> has_nl x = false ->
